@@ -654,6 +654,7 @@ static void history_phases()
 static void body()
 {
     ambient::enable(3);
+    vrt::box_shifts() = true;
     vrt::require("format.compared", 5000);
     vrt::require("format.non_ascii_output", 1000);
     vrt::require("format.long_output", 20);
